@@ -778,6 +778,7 @@ def unwrap_rtx(rtx: RtpPacket, payload_type: int, ssrc: int) -> RtpPacket:
     )
     packet.csrc = rtx.csrc
     packet.extensions = rtx.extensions
+    packet.padding_size = rtx.padding_size
     return packet
 
 
@@ -797,4 +798,5 @@ def wrap_rtx(
     )
     rtx.csrc = packet.csrc
     rtx.extensions = packet.extensions
+    rtx.padding_size = packet.padding_size
     return rtx
